@@ -520,7 +520,8 @@ fn typed_sweep(which: Which, tier: Tier, variants: bool, perturbed: bool) -> Swe
                     examine(&surface::print(&v), which, tier);
                 }
             }
-            if perturbed && (which == Which::C03 || idx < perturb_limit) {
+            // quick tier: the programs of the largest size get the annotation variants only
+            if perturbed && ((which == Which::C03 && tier == Tier::Thorough) || idx < perturb_limit) {
                 for v in perturbations(s) {
                     count!("perturbations");
                     examine(&surface::print(&v), which, tier);
